@@ -5,6 +5,7 @@ import HcModel.Drv.Storage
 import HcModel.Drv.Spec
 import HcModel.Drv.Handover
 import HcModel.Drv.SessLookup
+import HcModel.Drv.PlainFraming
 import HcModel.Drv.Tlv8Struct
 import HcModel.Drv.CharHttp
 import HcModel.Drv.Notify
@@ -38,6 +39,7 @@ def step (line : String) : String :=
   | "notify" :: rest => Hc.Drv.Notify.handle rest
   | "charhttp" :: rest => Hc.Drv.CharHttp.handle rest
   | "tlvs" :: rest => Hc.Drv.Tlv8Struct.handle rest
+  | "plain" :: rest => Hc.Drv.PlainFraming.handle rest
   | "sess" :: rest => Hc.Drv.SessLookup.handle rest
   | "handover" :: rest => Hc.Drv.Handover.handle rest
   | "spec" :: rest => Hc.Drv.Spec.handle rest
